@@ -555,8 +555,9 @@ class _:
 
 @op('set_dims')
 class _:
-    def run(a, ins, ns): a.dims = tuple(ns); return a
-    def coq(ns): return '(OSetDims %s)' % cq_list([cq_str(x) for x in ns])
+    # pairs: the same request written as a mapping {old: new} (names not mentioned stay); ns is the resulting list of names
+    def run(a, ins, ns, pairs=None): a.dims = dict((o_, n_) for o_, n_ in pairs) if pairs is not None else tuple(ns); return a
+    def coq(ns, pairs=None): return '(OSetDims %s)' % cq_list([cq_str(x) for x in ns])
 
 @op('query')
 class _:
